@@ -679,6 +679,12 @@ def rule_fallback(chk, with_clamp=True):
         if isnone is None and notnone is None:
             bad.setdefault('none-never-returned', 'an adaptive path returns %s without testing the integrator\'s answer for None' % rv)
             continue
+        ser = PT.took(p_, False, 'self.in_parallel')
+        if par is None and ser is None:
+            # a path that never looks at in_parallel is taken by parallel runs as well: there every process must take part in the reduction, whatever its own answer
+            bad.setdefault('parallel-run-always-reduces', 'an adaptive path returns %s without looking at self.in_parallel: in a parallel run this process steps with its own value and leaves the '
+                           'global reduction (pm.update_time_steps) to the others' % rv)
+            continue
         if par is None:
             if isnone is not None:
                 seen.add('serial-none')
@@ -691,12 +697,21 @@ def rule_fallback(chk, with_clamp=True):
         else:
             seen.add('parallel')
             if not rv.startswith('self.pm.update_time_steps('):
-                bad.setdefault('none-never-returned', 'the parallel path does not reduce the step over the processes: %s' % rv)
+                bad.setdefault('parallel-run-always-reduces', 'the parallel path does not reduce the step over the processes: %s' % rv)
+            elif isnone is not None:
+                # a process without a constraint of its own contributes a number larger than any step, so that the others decide
+                arg = rv[len('self.pm.update_time_steps('):-1]
+                try:
+                    big = float(arg) >= 1e10
+                except ValueError:
+                    big = False
+                if not big:
+                    bad.setdefault('parallel-run-always-reduces', 'a process without a criterion of its own contributes %s to the global minimum (expected a number larger than any step)' % arg)
     for need in ('nonadaptive', 'serial-none', 'serial-value'):
         if need not in seen:
             bad.setdefault({'nonadaptive': 'non-adaptive-uses-fixed-step', 'serial-none': 'none-keeps-fixed-step', 'serial-value': 'none-never-returned'}[need], 'no %s path found' % need)
     for inst, text in (('arguments', '(undamped_dt, self.cfl)'), ('none-keeps-fixed-step', 'dt = undamped_dt'), ('non-adaptive-uses-fixed-step', 'else: dt = undamped_dt'),
-                       ('none-never-returned', 'every path tests for None')):
+                       ('none-never-returned', 'every path tests for None'), ('parallel-run-always-reduces', 'every adaptive path of a parallel run goes through pm.update_time_steps; None contributes 1e20')):
         chk.decide(inst not in bad, 'fallback-to-fixed-step', inst, node=fn, file=SOL, func='_compute_timestep', detail_bad=bad.get(inst, ''), detail_ok=text)
     # the fixed step the run falls back on is the nominal one: a step shortened to land on an output time is saved first (rule shared with C10)
     if with_clamp:
